@@ -18,13 +18,44 @@ class G_:
         self.rng = rng
         self.depth = depth
         self.empties = empties      # write empty statements and allow bodies made of them only
+        self.structured = True      # structured and array variables
 
     def name(self, p="v"):
         return "%s%d" % (p, self.rng.randrange(40))
 
     # ---- expressions: (sexp, lexemes) with the lexemes well-formed at level q ----
+    def selvar(self, d):
+        """a variable with at least one selector: (sexp, lexemes)"""
+        n = self.name()
+        sx, lx = [], [ident(n)]
+        for _ in range(self.rng.choice([1, 1, 2, 3])):
+            if self.rng.random() < 0.5:
+                f = self.name("fld")
+                sx.append("(field %s)" % f)
+                lx += [sym("."), ident(f)]
+            else:
+                es, el = [], []
+                for i in range(self.rng.choice([1, 1, 2])):
+                    if i:
+                        el.append(sym(","))
+                    e, l = self.expr(d + 1, 0)
+                    es.append(e)
+                    el += l
+                sx.append("(index %s)" % " ".join(es))
+                lx += [sym("[")] + el + [sym("]")]
+        return "(var %s %s)" % (n, " ".join(sx)), lx
+
+    def target(self, d):
+        """the variable on the left of ':=' or right of '=>'"""
+        if self.structured and d < self.depth and self.rng.random() < 0.3:
+            return self.selvar(d)
+        n = self.name()
+        return "v:" + n, [ident(n)]
+
     def leaf(self):
         r = self.rng.random()
+        if self.structured and r < 0.12:
+            return self.selvar(self.depth - 1)
         if r < 0.45:
             n = self.name()
             return "n:" + n, [ident(n)]
@@ -65,10 +96,11 @@ class G_:
                 ps.append("(named %s %s)" % (nm, s))
                 lx += [ident(nm), sym(":=")] + l
             else:
-                nm, v = self.name("o"), self.name()
+                nm = self.name("o")
+                vs, vl = self.target(d + 1)
                 neg = self.rng.random() < 0.4
-                ps.append("(out %d %s %s)" % (1 if neg else 0, nm, v))
-                lx += ([kw("NOT")] if neg else []) + [ident(nm), sym("=>"), ident(v)]
+                ps.append("(out %d %s %s)" % (1 if neg else 0, nm, vs))
+                lx += ([kw("NOT")] if neg else []) + [ident(nm), sym("=>")] + vl
         return ps, lx
 
     def primary(self, d):
@@ -122,9 +154,9 @@ class G_:
     def stmt(self, d):
         r = self.rng.random()
         if d >= self.depth or r < 0.4:
-            v = self.name()
+            vs, vl = self.target(d)
             s, l = self.expr(0, 0)
-            return "(assign %s %s)" % (v, s), [ident(v), sym(":=")] + l, False
+            return "(assign %s %s)" % (vs, s), vl + [sym(":=")] + l, False
         if r < 0.5:
             f = self.name("fb")
             ps, lx = self.params(1)
@@ -212,13 +244,30 @@ def sx_expr(t):
     return None
 
 
-def sx_var(t):
-    """Symbolic(Named(NamedVariable{name})) -> v:name"""
-    while isinstance(t, tuple) and isinstance(t[1], list) and len(t[1]) == 1 and t[0] in ("Variable", "Symbolic", "Named"):
+def var_chain(t):
+    """(name, [selector sexps]) of Symbolic(Named / Structured / Array ...), or None"""
+    while isinstance(t, tuple) and isinstance(t[1], list) and len(t[1]) == 1 and t[0] in ("Variable", "Symbolic", "Named", "Structured", "Array"):
         t = t[1][0]
-    if isinstance(t, tuple) and t[0] == "NamedVariable":
-        return "v:" + t[1]["name"]
+    if not isinstance(t, tuple):
+        return None
+    if t[0] == "NamedVariable":
+        return t[1]["name"], []
+    if t[0] == "StructuredVariable":
+        c = var_chain(t[1]["record"])
+        return None if c is None else (c[0], c[1] + ["(field %s)" % t[1]["field"]])
+    if t[0] == "ArrayVariable":
+        c = var_chain(t[1]["subscripted_variable"])
+        es = [sx_expr(e) for e in t[1]["subscripts"]]
+        return None if c is None or any(e is None for e in es) else (c[0], c[1] + ["(index %s)" % " ".join(es)])
     return None
+
+
+def sx_var(t):
+    """v:name for a plain variable, (var name selectors..) otherwise"""
+    c = var_chain(t)
+    if c is None:
+        return None
+    return "v:" + c[0] if not c[1] else "(var %s %s)" % (c[0], " ".join(c[1]))
 
 
 def sx_param(p):
@@ -231,7 +280,7 @@ def sx_param(p):
         return None if e is None else "(named %s %s)" % (body["name"], e)
     if name == "Output":
         v = sx_var(body["tgt"])
-        return None if v is None else "(out %d %s %s)" % (1 if body["not"] == "true" else 0, body["src"], v[2:])
+        return None if v is None else "(out %d %s %s)" % (1 if body["not"] == "true" else 0, body["src"], v)
     return None
 
 
@@ -248,7 +297,7 @@ def sx_stmt(t):
     name, b = t
     if name == "Assignment":
         v, e = sx_var(b["target"]), sx_expr(b["value"])
-        return None if v is None or e is None else "(assign %s %s)" % (v[2:], e)
+        return None if v is None or e is None else "(assign %s %s)" % (v, e)
     if name == "FbCall":
         ps = [sx_param(p) for p in b["params"]]
         return None if any(p is None for p in ps) else "(fbcall %s%s)" % (b["var_name"], "".join(" " + p for p in ps))
